@@ -26,6 +26,7 @@ contract(TR + "query_ast_visitor.make_sequence_from_collection", props=["C01", "
                                                           "seq_eq(stack_of(field(result, '_scope', '" + SEQ_CLS + "')), cursor(self))"),
              ("cvc.monotone", "monotone('_statements') and monotone('_variables')"),
              ("cvc.scope_tokens_immutable", "stable_except('_scope_stack', gc_of(self))"),
+             ("cvc.counter", "unique_var_index >= old(unique_var_index)"),
          ])
 CVARC = P + "cpp_representation.cpp_variable"
 GSCOPE = "func_adl_xAOD.common.util_scope.gc_scope"
@@ -115,4 +116,32 @@ contract(TR + "query_ast_visitor.visit_call_Aggregate_initial", props=["C01", "C
               "implies(final_g_k0 != final_g_k1, (type_of(final_accumulator) == final_g_t0 or type_of(final_accumulator) == final_g_t1) and "
               "rank(tkind(type_of(final_accumulator))) >= rank(final_g_k0) and rank(tkind(type_of(final_accumulator))) >= rank(final_g_k1))"),
              ("result_valid_where_the_accumulator_lives@C01", "seq_eq(cursor(self), stack_of(final_accumulator_scope)) and scope_of(final_accumulator) == final_accumulator_scope"),
+         ])
+# ---- Range(lo, hi): a vector lo..hi-1 built in its own block; the bounds are computed before that block is entered ------------------
+ARB = "func_adl_xAOD.common.statement.arbitrary_statement"
+PLAINBLOCK = "func_adl_xAOD.common.statement.block"
+contract(TR + "query_ast_visitor.call_Range", props=["C01", "C02"], replay={"bounds_computed_before_the_block_they_initialise_is_entered": "range_bounds_initialised"},
+         params=dict(self=QV, node=RefOf("ast.Call"), args=TList(Ref)), result=RefOf(SEQ_CLS),
+         requires=CVC_REQUIRES + [("bounds", "all(a != None and live(a) for a in args) and node != None and live(node)"),
+                                  ("cursor", "len(cursor(self)) >= 1 and all(b != None and live(b) for b in cursor(self))")],
+         modifies=CVC_MODIFIES + ["_initial_value", "_expression", "_scope", "_cpp_type", "_type", "_p_depth", "_is_const", "_tree_type", "_element_type", "_line",
+                                  "func", "args", "keywords", "cpp_name", "include_files", "cpp_return_type"],
+         may_raise=["Exception"], strict=False, raises={"AssertionError": "len(args) != 2"},
+         local_sorts=dict(begin_value=VAL, end_value=VAL, vector_value=VAL, seq=RefOf(SEQ_CLS), g_blk=RefOf(BLOCK), g_n_at_decl=Int, lower_rep=REP, upper_rep=REP),
+         ghost_init=["g_blk = None", "g_n_at_decl = 0 - 1"],
+         ghost={"after:self._gc.add_statement(statement.block())": ["g_blk = top_block(cursor(self))"],
+                "after:self._gc.declare_variable(end_value)": ["g_n_at_decl = len(field(top_block(cursor(self)), '_statements'))"]},
+         ensures=CVC_ENSURES + [
+             ("own_block@C01,C02", "final_g_blk != None and is_new(final_g_blk) and cls_is(final_g_blk, '" + PLAINBLOCK + "')"),
+             ("bounds_are_block_locals_initialised_from_the_arguments@C01,C02",
+              "len(field(final_g_blk, '_variables')) >= 3 and field(final_g_blk, '_variables')[0] == final_begin_value and "
+              "field(final_g_blk, '_variables')[1] == final_end_value and kind_of(final_begin_value) == 'int' and kind_of(final_end_value) == 'int' and "
+              "field(final_begin_value, '_initial_value') == final_lower_rep and field(final_end_value, '_initial_value') == final_upper_rep and "
+              "final_lower_rep != None and final_upper_rep != None"),
+             ("vector_sized_by_the_bounds@C01", "expr_of(field(field(final_g_blk, '_variables')[2], '_initial_value')) == "
+                                                "expr_of(final_end_value) + ' - ' + expr_of(final_begin_value) and "
+                                                "expr_of(field(final_g_blk, '_variables')[2]) == expr_of(final_vector_value)"),
+             ("bounds_computed_before_the_block_they_initialise_is_entered@C01,C02", "final_g_n_at_decl == 0"),
+             ("iterated_as_a_sequence@C01", "result != None and is_new(result) and rep_of(node) == result"),
+             ("elements_are_ints@C01", "kind_of(field(result, '_iterator')) == 'int'"),
          ])
